@@ -107,6 +107,9 @@ theorem mem_known (t : Table K) (d : Int) : d ∈ known t ↔ isKnown t d = true
       | none => simp [hg] at h1
       | some x => simp
 
+theorem known_iff (t : Table K) (d : Int) : d ∈ known t ↔ Known t d := by
+  unfold Known; rw [mem_known, isKnown_iff]
+
 theorem known_of_kw {t : Table K} {d : Int} {k : K} (h : k ∈ kwOf t d) : d ∈ known t := by
   rw [mem_known, isKnown_iff]
   right; intro e; rw [e] at h; cases h
@@ -205,6 +208,52 @@ theorem mem_spec_all (t : Table K) (ks : List K) (d : Int) :
 theorem mem_spec_neg (t : Table K) (pos : List Int) (d : Int) :
     d ∈ Spec.neg t pos ↔ d ∈ known t ∧ d ∉ pos := by
   unfold Spec.neg; rw [List.mem_filter]; simp
+
+/-! ## the index entry points on any state whose view represents a table -/
+
+section entry
+variable {s : State K} {t : Table K}
+
+theorem mem_applyEq (h : ViewOK s.view t) (k : K) (d : Int) : d ∈ applyEq s k ↔ k ∈ kwOf t d := by
+  unfold applyEq View.applyEq
+  rw [View.mem_searchAnd h]; simp
+
+theorem mem_applyAny (h : ViewOK s.view t) (ks : List K) (d : Int) :
+    d ∈ applyAny s ks ↔ ∃ k ∈ ks, k ∈ kwOf t d := View.mem_searchOr h ks d
+
+theorem mem_applyAll (h : ViewOK s.view t) (ks : List K) (d : Int) :
+    d ∈ applyAll s ks ↔ ks ≠ [] ∧ ∀ k ∈ ks, k ∈ kwOf t d := View.mem_searchAnd h ks d
+
+theorem mem_docids (h : ViewOK s.view t) (d : Int) : d ∈ docids s ↔ d ∈ known t :=
+  View.mem_docids h d
+
+theorem mem_applyNotEq (h : ViewOK s.view t) (k : K) (d : Int) :
+    d ∈ applyNotEq s k ↔ d ∈ known t ∧ k ∉ kwOf t d := by
+  unfold applyNotEq View.applyNotEq
+  rw [View.mem_negate h, ← mem_applyEq h]; rfl
+
+theorem mem_applyNotAny (h : ViewOK s.view t) (ks : List K) (d : Int) :
+    d ∈ applyNotAny s ks ↔ d ∈ known t ∧ ¬ ∃ k ∈ ks, k ∈ kwOf t d := by
+  unfold applyNotAny View.applyNotAny
+  rw [View.mem_negate h, ← mem_applyAny h]; rfl
+
+theorem mem_applyNotAll (h : ViewOK s.view t) (ks : List K) (d : Int) :
+    d ∈ applyNotAll s ks ↔ d ∈ known t ∧ ¬ (ks ≠ [] ∧ ∀ k ∈ ks, k ∈ kwOf t d) := by
+  unfold applyNotAll View.applyNotAll
+  rw [View.mem_negate h, ← mem_applyAll h]; rfl
+
+/-- every index entry point computes the specification's meaning of the query -/
+theorem applyIndex_sem (h : ViewOK s.view t) (q : QObj K) (d : Int) :
+    d ∈ QObj.applyIndex s q ↔ d ∈ Spec.sem t q := by
+  cases q with
+  | eq k => simp only [QObj.applyIndex, Spec.sem, mem_applyEq h, mem_spec_eq]
+  | noteq k => simp only [QObj.applyIndex, Spec.sem, mem_applyNotEq h, mem_spec_neg, mem_spec_eq]
+  | any ks => simp only [QObj.applyIndex, Spec.sem, mem_applyAny h, mem_spec_any]
+  | notany ks => simp only [QObj.applyIndex, Spec.sem, mem_applyNotAny h, mem_spec_neg, mem_spec_any]
+  | all ks => simp only [QObj.applyIndex, Spec.sem, mem_applyAll h, mem_spec_all]
+  | notall ks => simp only [QObj.applyIndex, Spec.sem, mem_applyNotAll h, mem_spec_neg, mem_spec_all]
+
+end entry
 
 /-! ## transfer to the tagged model -/
 
